@@ -181,4 +181,55 @@ theorem correlation_theorem {M N : ℕ} (hM : 0 < M) (hN : 0 < N) (ref im : ℕ 
   rw [Complex.re_sum]
   exact Finset.sum_congr rfl fun n _ => Complex.ofReal_re _
 
+/-! ### the phase-ramp aligned image for an integer shift -/
+
+theorem freq_congr {M : ℕ} (hM : 0 < M) (k : ℕ) : (M : ℤ) ∣ freq M k - (k : ℤ) := by
+  unfold freq
+  have h := Int.emod_add_mul_ediv (((k + M / 2 : ℕ) : ℤ)) (M : ℤ)
+  refine ⟨-(((k + M / 2 : ℕ) : ℤ) / (M : ℤ)), ?_⟩
+  rw [Int.natCast_mod]
+  push_cast at h ⊢
+  linarith
+
+/-- the model's ramp factor for an integer shift is the spectral core's integer ramp -/
+theorem toC_rampAt {M N : ℕ} (hM : 0 < M) (hN : 0 < N) (Fi : ℕ → ℕ → Cx ℝ) (r c : ℤ) (k l : ℕ) :
+    toC (rampAt M N Fi (r : ℝ) (c : ℝ) k l)
+      = toC (Fi k l) * (e M (-((k : ℤ) * r)) * e N (-((l : ℤ) * c))) := by
+  have hM' : M ≠ 0 := Nat.ne_of_gt hM
+  have hN' : N ≠ 0 := Nat.ne_of_gt hN
+  unfold rampAt
+  rw [toC_mul, toC_cis]
+  congr 1
+  have e1 : e M (-((k : ℤ) * r)) = e M (-(freq M k * r)) := by
+    apply e_congr hM'
+    obtain ⟨w, hw⟩ := freq_congr hM k
+    exact ⟨w * r, by linear_combination r * hw⟩
+  have e2 : e N (-((l : ℤ) * c)) = e N (-(freq N l * c)) := by
+    apply e_congr hN'
+    obtain ⟨w, hw⟩ := freq_congr hN l
+    exact ⟨w * c, by linear_combination c * hw⟩
+  rw [e1, e2, e_eq_exp_ofReal, e_eq_exp_ofReal, ← Complex.exp_add]
+  congr 1
+  simp only [NumReal.ofInt_eq, NumReal.ofNat_eq, NumReal.ofRat_eq, NumReal.pi_eq, NumReal.mul_eq, NumReal.div_eq,
+    NumReal.add_eq]
+  have hMr : (M : ℂ) ≠ 0 := by exact_mod_cast hM'
+  have hNr : (N : ℂ) ≠ 0 := by exact_mod_cast hN'
+  push_cast
+  field_simp
+  ring
+
+/-- **Fourier shift theorem for the returned aligned image**: for an integer shift `(r, c)` the
+image `real(ifft2(fft2(im) * exp(-2πi(kx·r + ky·c))))` is `im` rolled by `(r, c)`. -/
+theorem aligned_integer_shift {M N : ℕ} (hM : 0 < M) (hN : 0 < N) (im : ℕ → ℕ → ℝ) (r c : ℤ) (n m : ℕ) :
+    idft2ReAt M N (rampAt M N (dft2At M N im) (r : ℝ) (c : ℝ)) n m = applyShift M N im r c n m := by
+  have hM' : M ≠ 0 := Nat.ne_of_gt hM
+  have hN' : N ≠ 0 := Nat.ne_of_gt hN
+  rw [idft2ReAt_eq hM' hN']
+  have hF : (fun k l => toC (rampAt M N (dft2At M N im) (r : ℝ) (c : ℝ) k l))
+      = fun k l => dft2 M N (imgC im) k l * (e M (-((k : ℤ) * r)) * e N (-((l : ℤ) * c))) := by
+    funext k l
+    rw [toC_rampAt hM hN, toC_dft2At hM' hN']
+  rw [hF, shift2_eq_roll2 hM hN]
+  simp [roll2, imgC, applyShift, rollImg, rollIdx, wrap]
+
 end QuantemModel.Registration
